@@ -216,3 +216,6 @@ func RandBudget(n int) {}
 // MapOrders(true): from here on the engine explores the iteration orders of small maps (Go randomises
 // them); off by default. Natively a no-op.
 func MapOrders(on bool) {}
+
+// MapOrdersIn(fn): explore map iteration orders only inside functions whose name contains fn ("" = off).
+func MapOrdersIn(fn string) {}
